@@ -37,7 +37,10 @@ func params() config.ConsensusParams { return config.Consensus[Proto] }
 // Accounts returns the process-wide deterministic key pool (seeded; identical in every process).
 func Accounts() []*Account {
 	acctOnce.Do(func() {
-		dil := params().DefaultKeyDilution
+		// Small key dilution, and batch 0 is expanded into per-round keys up front: Sign() otherwise draws
+		// a fresh sub-key from the secrets' RNG on every call, which would make signature bytes depend
+		// on the process-wide order of Sign calls (a determinism leak across runs and instances).
+		const dil = 64
 		for i := 0; i < maxAccounts; i++ {
 			var seed crypto.Seed
 			binary.LittleEndian.PutUint64(seed[:], uint64(0xA160000+i))
@@ -48,9 +51,10 @@ func Accounts() []*Account {
 			copy(vseed[8:], "verif-agreesim-vrf")
 			vpk, vsk := crypto.VrfKeygenFromSeed(vseed)
 			rng := crypto.MakePRNG(append([]byte("verif-agreesim-ots"), byte(i)))
-			ots := crypto.GenerateOneTimeSignatureSecretsRNG(0, 3, rng)
+			ots := crypto.GenerateOneTimeSignatureSecretsRNG(0, 2, rng)
+			ots.DeleteBeforeFineGrained(crypto.OneTimeSignatureIdentifier{Batch: 0, Offset: 0}, dil)
 			a := &Account{Idx: i, Addr: basics.Address(s.SignatureVerifier), VRF: &crypto.VRFSecrets{PK: vpk, SK: vsk}, Voting: ots}
-			a.Part = account.Participation{Parent: a.Addr, VRF: a.VRF, Voting: a.Voting, FirstValid: 0, LastValid: basics.Round(3*dil - 1), KeyDilution: dil}
+			a.Part = account.Participation{Parent: a.Addr, VRF: a.VRF, Voting: a.Voting, FirstValid: 0, LastValid: basics.Round(2*dil - 1), KeyDilution: dil}
 			accounts = append(accounts, a)
 		}
 	})
